@@ -10,6 +10,7 @@ the definition "a read of sources S at sequence s returns `view c S k s`").
 |---|---|
 | `writeInsert es` | `writeLocked`: `batch.putMem(seq, mdb)` for (part of) the merged group, `seq = db.seq+1…`, under the write lock |
 | `publish` | `writeLocked`: `db.addSeq(n)` (after every `putMem` of the group) |
+| `seqSkip n` | `writeLocked`, journal-error path: `db.addSeq(n)` without any insertion — the numbers of a failed group are consumed, never handed out again (fix of D4) |
 | `rotate` | `rotateMem`→`newMem` under `memMu`: needs `frozenMem == nil`; `frozenMem = mem; mem = new` (write lock held) |
 | `flushInstall` | `memCompaction`: `compactionCommit("memdb")` → `session.commit` → `setVersion` (under `vmu`) |
 | `flushDrop` | `memCompaction`: `dropFrozenMem` (under `memMu`), after the commit |
@@ -23,12 +24,13 @@ the definition "a read of sources S at sequence s returns `view c S k s`").
 | `rVer i` | `db.get`/`newRawIterator`: `s.version()` (under `vmu`), after `getMems` |
 | `rLookup i k` | `memGet` on mem, frozen, then `version.get` (for an iterator: any number of them, any time later) |
 | `rRelease i` | `releaseSnapshot` (deferred in `DB.Get`; `dbIter.Release`; end of `snap.mu.RLock`) |
-| `trOpen` … `trDiscard` | `OpenTransaction`, `Transaction.put`, `Transaction.Get`, `Commit` (`s.commit` then `setSeq`), `Discard` |
+| `trOpen` … `trDiscard` | `OpenTransaction`, `Transaction.put`, `Transaction.Get`, `Commit` (`s.commit` then `setSeq`), `Discard` (`discard`: `if tr.seq > db.getSeq() { db.setSeq(tr.seq) }` — the numbers the transaction used are skipped, fix of D16 — then the private tables are removed) |
 
 Buffers are referred to by id and read *at lookup time* (a memdb is shared and keeps growing after a
 reader has pinned it); table collections are copied (versions are immutable).
 `hist` is ghost: every entry that was inserted by a writer or published by a transaction commit; it only grows.
-A transaction's private entries enter `hist` at `trPublish`; a discarded transaction never touches it.
+A transaction's private entries enter `hist` at `trPublish`; a discarded transaction never touches it
+(but `pub` jumps over the numbers it used: sequence numbers may have *gaps*, an entry never exists twice).
 `floor`, `groups`, `Reader.live` are ghost too.
 
 ## what each guard assumes about the code (to be checked on recorded runs)
@@ -54,8 +56,10 @@ A transaction's private entries enter `hist` at `trPublish`; a discarded transac
 * `rSeq`/`rSeqSnap`: the reader's position stays registered (snapshot list element, or `snap.mu.RLock`)
   until it has pinned the version (`rRelease` needs `ver? ≠ none`); `rMems` before `rVer`
   (`Cfg.verFirst` lifts this: `C05.verFirst_breaks`); both buffers under one `memMu.RLock`.
+* `seqSkip n`: under the write lock with nothing inserted (`pending = []`, `tr = none`).
 * `trPut`: sequence numbers `tr.seq+1…`, only before the commit; `trInstall` before `trPublish`;
-  `trDiscard` only before `trInstall`; `trGet` reads private entries, buffers, version atomically w.r.t.
+  `trDiscard` only before `trInstall`, and it moves `db.seq` over the transaction's numbers
+  (`Cfg.discardReusesSeq` = the old code: `C11.discardReuse_breaks`); `trGet` reads private entries, buffers, version atomically w.r.t.
   the other transaction methods (`tr.lk`), not w.r.t. flushes and compactions.
 -/
 namespace GoLevel.Conc
@@ -123,6 +127,8 @@ structure Cfg where
   verFirst : Bool := false
   /-- `OpenTransaction` does not wait for a frozen buffer to be flushed -/
   trOverFrozen : Bool := false
+  /-- `Discard` leaves `db.seq` alone (the code before the fix of D16): the next write reuses the numbers -/
+  discardReusesSeq : Bool := false
 deriving DecidableEq, Repr
 
 def Cfg.real : Cfg := {}
@@ -130,6 +136,7 @@ def Cfg.real : Cfg := {}
 inductive Action
   | writeInsert (es : List Entry)
   | publish
+  | seqSkip (n : Nat)
   | rotate
   | flushInstall
   | flushDrop
@@ -209,6 +216,12 @@ def doPublish (σ : State) : Option State :=
   if σ.tr = none then
     some { σ with pub := σ.pub + σ.pending.length, pending := [],
                   groups := ⟨σ.pub, σ.pub + σ.pending.length, σ.pending⟩ :: σ.groups }
+  else none
+
+/-- `db.addSeq(n)` with nothing inserted: a gap in the sequence numbers (ghost: a group without entries) -/
+def doSeqSkip (σ : State) (n : Nat) : Option State :=
+  if σ.tr = none ∧ σ.pending = [] then
+    some { σ with pub := σ.pub + n, groups := ⟨σ.pub, σ.pub + n, []⟩ :: σ.groups }
   else none
 
 def doRotate (σ : State) : Option State :=
@@ -334,15 +347,21 @@ def doTrPublish (σ : State) : Option State :=
     else none
   | none => none
 
-def doTrDiscard (σ : State) : Option State :=
+def doTrDiscard (cfg : Cfg) (σ : State) : Option State :=
   match σ.tr with
-  | some t => if t.installed = false then some { σ with tr := none } else none
+  | some t =>
+    if t.installed = false then
+      some (if cfg.discardReusesSeq = true then { σ with tr := none }
+            else { σ with tr := none, pub := max σ.pub (t.base + t.priv.length),
+                          groups := ⟨σ.pub, max σ.pub (t.base + t.priv.length), []⟩ :: σ.groups })
+    else none
   | none => none
 
 /-- the executable part of a step: decidable guard and successor state -/
 def step (cfg : Cfg) (c : UCmp) (σ : State) : Action → Option State
   | .writeInsert es => doWriteInsert σ es
   | .publish => doPublish σ
+  | .seqSkip n => doSeqSkip σ n
   | .rotate => doRotate σ
   | .flushInstall => doFlushInstall σ
   | .flushDrop => doFlushDrop cfg σ
@@ -362,7 +381,7 @@ def step (cfg : Cfg) (c : UCmp) (σ : State) : Action → Option State
   | .trGet k => doTrGet c σ k
   | .trInstall => doTrInstall σ
   | .trPublish => doTrPublish σ
-  | .trDiscard => doTrDiscard σ
+  | .trDiscard => doTrDiscard cfg σ
 
 /-- the semantic (not decidable) part of a guard: what a table compaction may do to the table
 collection — for every reader position at or above the `minSeq` it read at its start, the new collection
